@@ -13,6 +13,7 @@
    cuts_ok cuts: the reads the OS delivers — any byte counts, with fewer than 100 consecutive
    (0,nil) reads (the code gives up after 100). *)
 From Fzf Require Import Prelude RecordSpec ReaderModel ChunkModel InputModel ReaderProofs ChunkProofs InputProofs.
+From Fzf Require Import FieldSpec RecordNthSpec RecordNthProofs.
 Open Scope Z_scope.
 
 (* The spec is the reading of a stream: writing records rs (delimiter-free), each terminated, followed by
@@ -214,3 +215,45 @@ Example c06_nonvacuous_session :
   run_session 4 6 2 false 1 2 cinit [l1; l2; l3] =
     Ok [[(2%nat, [52]); (3%nat, [53])]; [(0%nat, [98]); (1%nat, [99])]; [(1%nat, [122]); (2%nat, [119])]].
 Proof. split; [repeat constructor|vm_compute; reflexivity]. Qed.
+
+(* ---- every record is its OWN item: what is derived from an item's content (--nth fields, --with-nth text)
+   is derived from that record alone (spec/RecordNthSpec.v).  These are statements about the SPEC
+   query_listing, which the check evaluates on the output of `fzf --filter Q [--nth|--with-nth ES] [-d SEP]`
+   through every filter path; the per-item token cache of pattern.go is not modelled. ---- *)
+
+(* an item is listed iff it is searchable and its own record is found *)
+Theorem query_listing_in : forall read0 tac hl tail d sc q s it,
+  In it (query_listing read0 tac hl tail d sc q s) <->
+  In it (filter_listing read0 tac hl tail s) /\ found d sc q (snd it) = true.
+Proof. exact query_listing_in_proof. Qed.
+Print Assumptions query_listing_in.
+
+Theorem query_listing_tac : forall read0 hl tail d sc q s,
+  query_listing read0 true hl tail d sc q s = rev (query_listing read0 false hl tail d sc q s).
+Proof. exact query_listing_tac_proof. Qed.
+Print Assumptions query_listing_tac.
+
+(* it extends filter_listing: the empty query on the whole record lists every searchable item *)
+Theorem query_listing_empty : forall read0 tac hl tail d s,
+  query_listing read0 tac hl tail d SWhole [] s = filter_listing read0 tac hl tail s.
+Proof. exact query_listing_empty_proof. Qed.
+Print Assumptions query_listing_empty.
+
+(* record-locality: writing delimiter-free records rs one after the other, the records listed are exactly those
+   found on their own, in order - no record's verdict depends on any other record of the stream *)
+Theorem query_listing_record_local : forall read0 d sc q rs,
+  Forall (delim_free (delim_of read0)) rs ->
+  map snd (query_listing read0 false 0 0 d sc q (terminated (delim_of read0) rs)) = filter (found d sc q) rs.
+Proof. exact query_listing_record_local_proof. Qed.
+Print Assumptions query_listing_record_local.
+
+(* "a x\nb y\nc x\nd z\n" with --nth 2 and query x: records 0 and 2; with --with-nth 1 and query b: record 1;
+   "k,x,\n,,x\n" with -d , --nth 2 and query x: record 0 only (in record 1 the x is in field 3) *)
+Example c06_nonvacuous_query_listing :
+  let s := [97;32;120;10; 98;32;121;10; 99;32;120;10; 100;32;122;10] in
+  query_listing false false 0 0 FAwk (SNth [FIdx 2]) [120] s = [(0%nat, [97;32;120]); (2%nat, [99;32;120])] /\
+  query_listing false true 0 0 FAwk (SNth [FIdx 2]) [120] s = [(2%nat, [99;32;120]); (0%nat, [97;32;120])] /\
+  query_listing false false 0 0 FAwk (SWithNth [FIdx 1]) [98] s = [(1%nat, [98;32;121])] /\
+  query_listing false false 0 0 (FLit [44]) (SNth [FIdx 2]) [120] [107;44;120;44;10; 44;44;120;10]
+    = [(0%nat, [107;44;120;44])].
+Proof. repeat split; vm_compute; reflexivity. Qed.
